@@ -688,6 +688,7 @@ def write_evidence(prop, tier, seed, wall, t_build, agg, distinct, cfgs, pairs, 
             'F5_stale_reuse': int(agg.get('placements', {}).get('reuse_stale', 0)),
             'F6_quarantine_or_stash_on_free': int(agg.get('frees', 0)),
             'F8_zero_size_request': int(agg.get('placements', {}).get('zero_size', 0)),
+            'F10_value_copy_constructor_throw': int(agg.get('value_throws', 0)),
         },
         'placements': agg.get('placements', {}),
         'ops_executed': agg.get('ops', {}),
@@ -711,7 +712,7 @@ def write_evidence(prop, tier, seed, wall, t_build, agg, distinct, cfgs, pairs, 
         'components': {
             'real': ['/repo/src/cntgs/** (header-only library, current working tree, public API only)'],
             'stub': ['allocator (SimAlloc/SimHeap: placement, junk, stale reuse, failure injection, identity)',
-                     'value types (Tracked/TrackedMO/Pod + built-ins, std::string, std::unique_ptr)',
+                     'value types (Tracked/TrackedMO/TrackedThrow/Pod + built-ins, std::pair, std::string, std::unique_ptr)',
                      'source ranges and iterators handed to emplace_back', 'caller threads (C19 only)'],
         },
         'build_wall_s': round(t_build, 1),
